@@ -36,8 +36,11 @@ BUILTIN = {
 D48 = [n for n, r in BUILTIN.items() if r[0] == 48]
 D64 = [n for n, r in BUILTIN.items() if r[0] == 64]
 USER48 = ['D,8,6,3a,2,U', 'D,8,6,2d,0,L', 'D,16,3,3a,4,L', 'D,16,3,2d,0,U', 'D,24,2,2d,6,U', 'D,48,1,,12,L',
-          'D,8,6,5f,2,L', 'D,12,4,2e,3,L']
-USER64 = ['D,8,8,3a,2,U', 'D,16,4,2d,0,U', 'D,64,1,,16,L', 'D,32,2,2d,8,L']
+          'D,8,6,5f,2,L', 'D,12,4,2e,3,L',
+          # a multi-word dialect that only drops the separator (fully padded words: the bare spelling)
+          'D,8,6,,2,U', 'D,16,3,,4,L', 'D,24,2,,6,L']
+USER64 = ['D,8,8,3a,2,U', 'D,16,4,2d,0,U', 'D,64,1,,16,L', 'D,32,2,2d,8,L',
+          'D,8,8,,2,L', 'D,16,4,,4,U', 'D,32,2,,8,L']
 IABS = (0x0050c2, 0x40d855)          # IEEE IAB base OUIs
 MAXV = {48: (1 << 48) - 1, 64: (1 << 64) - 1}
 
